@@ -222,6 +222,7 @@ func (h *crashHarness) open(withFaults bool) error {
 		if h.meta != nil {
 			h.fmeta = faultfs.New(h.meta)
 			// one process: the two wrappers share the crash
+			h.ffs.Peer, h.fmeta.Peer = h.fmeta, h.ffs
 			mfs = h.fmeta
 		}
 	}
@@ -286,7 +287,7 @@ func (h *crashHarness) diskCut(kind, key string, bodyLen int) string {
 			if len(p) != 2 {
 				continue
 			}
-			calls = append(calls, call{p[0], p[1], f.Dead && i == len(f.Log)-1, meta})
+			calls = append(calls, call{p[0], p[1], f.Crashed && i == len(f.Log)-1, meta})
 		}
 	}
 	add(h.ffs, false)
